@@ -14,7 +14,7 @@ CONSTANTS MaxParams, Enabled, Shard, NShards
 Fmts == <<"class", "pydantic", "function", "argparse">>
 Styles == {"rest", "google", "numpydoc"}
 ExecTyps == Typs \ {"absent", "Dotted"}            \* resolvable from typing + builtins
-ExecParams == ParamsOver(ExecTyps, Defs \ {"code"}, {"plain"})
+ExecParams == ParamsOver(ExecTyps, Defs \ {"code"}, {"plain", "absent"})        \* described or without any prose
 SmallParams == ParamsOver({"int", "Opt_str", "Lit"}, {"absent", "None", "int_pos", "str"}, {"plain"})
 ParamSeqs == {<<p>> : p \in ExecParams} \cup (IF MaxParams >= 2 THEN {<<p, r>> : p \in ExecParams, r \in SmallParams} ELSE {})
 
@@ -62,21 +62,29 @@ FiredP(en, cfg, p) ==
      \/ (d = "argparse_type_collapsed" /\ cfg.fmt = "argparse" /\ p.typ \in {"Union_int_str", "Opt_dict"})}
 Wild(en, cfg, p) == FiredP(en, cfg, p) # {}
 
-VARIABLES cfg, ps, pc, obs
-vars == <<cfg, ps, pc, obs>>
+\* ---- the body of the emitted definition: what makes it a definition CPython accepts -----------------------------------
+\* a def/class statement needs at least one statement: the emitters always write the docstring expression (an empty one
+\* when the interface carries no prose at all), then the entries / add_argument calls / the return statement
+Body(c, idoc, qs) == <<"docstring">> \o (CASE c.fmt \in {"class", "pydantic"} -> [k \in 1..Len(qs) |-> "entry"]
+                                          [] c.fmt = "argparse" -> [k \in 1..Len(qs) |-> "add_argument"] \o <<"return">>
+                                          [] OTHER -> <<>>)
+
+VARIABLES cfg, ps, pc, obs, idoc, body
+vars == <<cfg, ps, pc, obs, idoc, body>>
 Cfgs == {c \in [fmt : {Fmts[k] : k \in 1..4}, style : Styles, kwonly : BOOLEAN] : c.fmt # "function" => c.kwonly}
 RECURSIVE SetToSeq(_)
 SetToSeq(S) == IF S = {} THEN <<>> ELSE LET x == CHOOSE x \in S : TRUE IN <<x>> \o SetToSeq(S \ {x})
 CfgSeq == SetToSeq(Cfgs)
 Init == /\ cfg \in {CfgSeq[k] : k \in {j \in 1..Len(CfgSeq) : j % NShards = Shard}}
-        /\ ps \in ParamSeqs /\ pc = "emit" /\ obs = <<>>
-EmitAndRun == pc = "emit" /\ obs' = Observed(cfg, ps) /\ pc' = "done" /\ UNCHANGED <<cfg, ps>>
+        /\ ps \in ParamSeqs /\ pc = "emit" /\ obs = <<>> /\ idoc \in {"one", "absent"} /\ body = <<>>
+EmitAndRun == pc = "emit" /\ obs' = Observed(cfg, ps) /\ body' = Body(cfg, idoc, ps) /\ pc' = "done" /\ UNCHANGED <<cfg, ps, idoc>>
 Next == EmitAndRun
 Spec == Init /\ [][Next]_vars
 
 Exposes == pc = "done" => obs = Described(cfg, ps)
+Compiles == pc = "done" => body # <<>>
 Dump == pc = "done" =>
-          PrintT(ToJson([cfg |-> cfg, ps |-> ps, desc |-> Described(cfg, ps),
+          PrintT(ToJson([cfg |-> cfg, ps |-> ps, idoc |-> idoc, body |-> body, desc |-> Described(cfg, ps),
                          wild |-> [k \in 1..Len(ps) |-> Wild(Enabled, cfg, ps[k])],
                          devs |-> SetToSeq(UNION {FiredP(Enabled, cfg, ps[k]) : k \in 1..Len(ps)})]))
 =====================================================================================
